@@ -24,6 +24,44 @@ pub fn render(c: &Value) -> String {
         let elim = if c["kind"] == "int" && ((at == "A" && ma == "def") || (at == "B" && mb == "def")) { "! exit 3".to_string() } else { elim };
         return format!("{PRELUDE}begin\n  {ma} A = {rhs} that\n  {mb} B = {rhs} that\n  let a : A = {build} that\n  let b : {at} = a that\n  {elim}\nend\n");
     }
+    if c.get("fam").and_then(|f| f.as_str()) == Some("cross") {
+        let path: Vec<&str> = c["path"].as_array().unwrap().iter().map(|s| s.as_str().unwrap()).collect();
+        let (mut ty, mut pat) = ("Box".to_string(), "(X, value, use)".to_string());
+        let (mut v1, mut v2) = ("ints".to_string(), "pairs".to_string());
+        let mut decls = vec![
+            "let Box = exists (A : VType) . A * (A -> Int64) that".to_string(),
+            "let ints : Box = (Int64, 5, fn (x : Int64) => x) that".to_string(),
+            "let pairs : Box = (Int64 * Int64, (1, 2), fn (q : Int64 * Int64) => (let (a, b) = q in b)) that".to_string(),
+        ];
+        for (k, step) in path.iter().enumerate().rev() {
+            match *step {
+                | "C" => {
+                    let name = format!("W{k}");
+                    decls.push(format!("let {name} = data | +{name} : {ty} end that"));
+                    v1 = format!("+{name}({v1})");
+                    v2 = format!("+{name}({v2})");
+                    pat = format!("+{name}({pat})");
+                    ty = name;
+                }
+                | "L" => {
+                    v1 = format!("({v1}, 2)");
+                    v2 = format!("({v2}, 2)");
+                    pat = format!("({pat}, _)");
+                    ty = format!("({ty} * Int64)");
+                }
+                | _ => {
+                    v1 = format!("(2, {v1})");
+                    v2 = format!("(2, {v2})");
+                    pat = format!("(_, {pat})");
+                    ty = format!("(Int64 * {ty})");
+                }
+            }
+        }
+        return format!(
+            "{PRELUDE}begin\n  {}\n  let open = fn (p : {ty}) => (let {pat} = p in (value, use)) that\n  let (v1, f1) = open {v1} that\n  let (v2, f2) = open {v2} that\n  let n : Int64 = f2 v1 that\n  ! exit n\nend\n",
+            decls.join("\n  ")
+        );
+    }
     if c.get("fam").and_then(|f| f.as_str()) == Some("field") {
         let n = c["n"].as_u64().unwrap() as usize;
         let name = |i: u64| if i == 0 { "z".to_string() } else { format!("f{i}") };
@@ -128,6 +166,12 @@ pub fn replay_exists(cases_path: &str, out_path: &str) {
                 }
                 | (Verdict::Accepted, _) => {
                     class = "accepted".to_string();
+                    // C01: does the hole let the interpreter go wrong?
+                    let run = run_bounded(&an.session, analysis.as_ref().unwrap(), b"", &[], 100_000);
+                    if let RunEnd::Panic { class: PanicClass::Stuck, panic } = &run.end {
+                        findings.push(json!({"property": "C01", "kind": "stuck-after-escape", "case": c, "source": src,
+                            "detail": format!("{} @ {} (the checker accepts a program in which an existential witness escapes; path {:?})", panic.message, panic.file, c["path"])}));
+                    }
                     findings.push(mk("accepts-ill-typed", format!("{} opened by {} under path {:?}, body {}, context {}: the rule says {want}, the checker accepts", c["pkg"], c["opener"], c["path"], c["body"], c["ctx"])));
                 }
                 | (Verdict::Rejected { messages }, _) => {
